@@ -77,6 +77,9 @@ func c08Monitor(args []string) int {
 	od := movegen.NewMoveGen() // one on-demand generator reused across all positions
 	hist := history.NewHistory()
 	seen := map[uint64]bool{}
+	abandoned := false
+	abandonedKey := uint64(0)
+	prevFen := ""
 	var prevMoves []Move // moves of the previous position (for stale / alien state)
 	lastODKey := uint64(0)
 	w.Stream(n, true, func(g GamePos) {
@@ -149,6 +152,10 @@ func c08Monitor(args []string) int {
 					// without reset the generator is only reused ACROSS positions (a second
 					// enumeration of the same position needs ResetOnDemand by design)
 					reset := rng.Chance(60) || lastODKey == uint64(p.ZobristKey())
+					if abandoned && uint64(p.ZobristKey()) == abandonedKey {
+						reset = true // same position again: a second enumeration needs a reset by design
+					}
+					abandonedKey = uint64(p.ZobristKey())
 					lastODKey = uint64(p.ZobristKey())
 					if reset {
 						od.ResetOnDemand()
@@ -191,15 +198,30 @@ func c08Monitor(args []string) int {
 						}
 					}
 					var got []Move
-					for m := od.GetNextMove(p, mode, ev); m != MoveNone; m = od.GetNextMove(p, mode, ev) {
-						got = append(got, m)
-						if len(got) > 400 {
-							break
+					panicked := func() (pan bool) {
+						defer func() {
+							if r := recover(); r != nil {
+								pan = true
+								rep.Violate("generator-panics", map[string]interface{}{"fen": fen, "previous_fen": prevFen, "promotions_non_quiet": promNQ, "mode": modeName(mode), "evasion": ev,
+									"pv": pv.StringUci(), "reset": reset, "predecessor_abandoned_mid_enumeration": abandoned}, fmt.Sprint(r))
+							}
+						}()
+						for m := od.GetNextMove(p, mode, ev); m != MoveNone; m = od.GetNextMove(p, mode, ev) {
+							got = append(got, m)
+							if len(got) > 400 {
+								break
+							}
 						}
+						return false
+					}()
+					if panicked {
+						od = movegen.NewMoveGen() // the generator's state is undefined now
+						abandoned = false
+						continue
 					}
 					gotS := sortedCodes(got)
 					in := map[string]interface{}{"fen": fen, "promotions_non_quiet": promNQ, "mode": modeName(mode), "evasion": ev,
-						"pv": pv.StringUci(), "reset": reset, "alien_pv": alien}
+						"pv": pv.StringUci(), "reset": reset, "alien_pv": alien, "previous_fen": prevFen, "predecessor_abandoned_mid_enumeration": abandoned}
 					inSet := false
 					for _, c := range want {
 						if c == int(pv.MoveOf()) {
@@ -305,9 +327,19 @@ func c08Monitor(args []string) int {
 					}
 					// sometimes leave the generator half drained on this position before the next one
 					if rng.Chance(30) {
-						for k := rng.Intn(4); k > 0; k-- {
+						// a new enumeration of this position that is abandoned after a few moves (as a search does
+						// after a beta cut): the next position may then be generated without a reset
+						od.ResetOnDemand()
+						if rng.Chance(40) && len(all) > 0 {
+							od.SetPvMove(all[rng.Intn(len(all))])
+						}
+						for k := 1 + rng.Intn(6); k > 0; k-- {
 							od.GetNextMove(p, mode, ev)
 						}
+						lastODKey = 0 // the generator is in the middle of a batch: the next use may come without reset
+						abandoned = true
+					} else {
+						abandoned = false
 					}
 				}
 			}
@@ -317,6 +349,7 @@ func c08Monitor(args []string) int {
 			rep.Violate("has-legal-move-wrong", map[string]interface{}{"fen": fen}, fmt.Sprintf("HasLegalMove=%v but %d legal moves", hl, len(legal)))
 		}
 		prevMoves = append(prevMoves[:0], w.legalMoves(p)...)
+		prevFen = fen
 		rep.Sample(map[string]interface{}{"fen": fen, "pseudo_legal": len(legal)})
 	})
 	_ = position.StartFen
